@@ -478,6 +478,8 @@ class Fn:
       if isinstance(s.value, ast.Constant) and s.value.value in (True, False) and self.assign_count.get(nm, 0) == 1:
         self.known[nm] = s.value.value
       env2 = env if nm in env else env + [nm]
+      if nm in self.self_attrs and ('assigned!' + nm) not in env2:
+        env2 = env2 + ['assigned!' + nm]       # the attribute no longer holds what a previous use of the object left in it
       return '%slet %s := %s in\n%s' % (pad, self.var(nm), rhs, self.S(rest, env2, k, ind))
     if isinstance(s, ast.Expr) and isinstance(s.value, ast.Call):
       c = s.value
@@ -681,7 +683,14 @@ class Fn:
     self.phase, self.touched, self.inlined_locals = 'enter', False, set()
     env0 = [p for p in self.params if p not in self.key_params] + list(self.self_attrs)
     saved_box = []
+    exit_reads = {('self_' + n.attr) for n in ast.walk(ast.Module(body=list(exit_body), type_ignores=[]))
+                  if isinstance(n, ast.Attribute) and isinstance(n.value, ast.Name) and n.value.id == 'self' and isinstance(n.ctx, ast.Load)}
     def k_enter(env):
+      for a in self.self_attrs:
+        if a in exit_reads and ('assigned!' + a) not in env:
+          raise TranslationError('%s: on some path self.%s is not assigned before the yield, so leaving the scope uses the value a previous use of the '
+                                 'same object left there' % (self.fn.name, a[5:]))
+      env = [e for e in env if not e.startswith('assigned!')]
       saved = [e for e in env if e not in self.params or e in self.assigned]
       saved = [e for e in saved if e != 'self' and e not in self.inlined_locals]
       if saved_box and saved_box[0] != saved:
